@@ -102,7 +102,29 @@ func runC16(c *Ctx) {
 			}
 		}
 	}
-	c.Floor("C16.K3-shutdown-alternative", 3)
+	// the receiver republishes through the pubsub sender while a Direct call is in progress: that sender's Send does not
+	// wait on anything (a wait there can only be ended by the caller's context, never by Close, so a Direct racing
+	// with Close would not return)
+	if c.pkg("announce/p2psender") != nil {
+		nSend := 0
+		for _, f := range c.Funcs("announce/p2psender") {
+			if f.SSA.Name() != "Send" || f.SSA.Signature.Recv() == nil {
+				continue
+			}
+			nSend++
+			ops := c.BlockingOps(f.SSA)
+			for _, op := range ops {
+				c.Bad("C16.K3-shutdown-alternative", f.Name+" › "+op.Kind, op.Pos, "the pubsub sender waits ("+op.Kind+") inside Send: the receiver's Close cannot wake a Direct call that is republishing")
+			}
+			if len(ops) == 0 {
+				c.OK("C16.K3-shutdown-alternative", f.Name+" › does not wait", f.SSA.Pos(), "no channel operation, select or wait in the pubsub sender's Send")
+			}
+		}
+		if nSend == 0 {
+			c.Unk("C16.K3-shutdown-alternative", "announce/p2psender.(*Sender).Send", token.NoPos, "not found")
+		}
+	}
+	c.Floor("C16.K3-shutdown-alternative", 4)
 
 	// ---- K4: cancelWatch() before <-watchDone -----------------------------------
 	var cancelCall, waitRecv ssa.Instruction
